@@ -61,6 +61,9 @@ func (sp *Proof) Verify(rootHash []byte, leaf []byte) error {
 		return fmt.Errorf("invalid leaf hash: wanted %X got %X", leafHash, sp.LeafHash)
 	}
 	computedHash := sp.ComputeRootHash()
+	if computedHash == nil {
+		return errors.New("invalid proof: no root hash can be computed from index, total and aunts")
+	}
 	if !bytes.Equal(computedHash, rootHash) {
 		return fmt.Errorf("invalid root hash: wanted %X got %X", rootHash, computedHash)
 	}
